@@ -152,6 +152,19 @@ class TokString(Token):
         super().__init__(*args, **kwargs)
 
     @property
+    def value(self):
+        """The string that the literal denotes."""
+        if self._multiline_quote is not None:
+            # As in Lua: every line break inside long brackets denotes a
+            # newline, and a line break directly after the opening bracket is
+            # not part of the string.
+            data = self._data.replace(b'\r\n', b'\n')
+            if data.startswith(b'\n'):
+                data = data[1:]
+            return data
+        return self._data
+
+    @property
     def code(self):
         if self._multiline_quote is not None:
             return (b'[' + self._multiline_quote + b'[' +
